@@ -1,7 +1,7 @@
 // C17 / C18 harness: builds an OKL kernel from a loop-nest description, translates it with each
 // of the seven real translators in-process and prints the lines of each translation that decide
 // which iterations run (launch dimensions, iterator reconstruction, kept/tiled loop headers,
-// bounds checks).  With H_LOOPS_DUMP=1 it appends ` || okl=<hex> <mode>=<hex> <mode>.launcher=<hex> ...`,
+// bounds checks).  With H_LOOPS_DUMP=1 it appends ` @@SRC okl=<hex> <mode>=<hex> <mode>.launcher=<hex> ...`,
 // the complete translated sources; tools/checks/loops_common.py compiles and executes those under
 // an emulation of the launch model (the execution oracle).
 //
@@ -103,13 +103,13 @@ int main() {
       }
       std::string okl;
       if (!kernelText(t[1], ls, okl)) return "bad-op";
-      std::string out = "ok", dump = " || okl=" + hp::hex(okl);
+      std::string out = "ok", dump = " @@SRC okl=" + hp::hex(okl);
       for (int m = 0; m < lc::NMODES; ++m) {
         std::string mode = lc::MODES[m];
         lc::Translation tr = lc::translate(mode, okl);
-        if (!tr.ok) { out += " | " + mode + " ERR"; continue; }
-        out += " | " + mode + " " + lc::interesting(tr.device);
-        if (m >= 2) out += " | " + mode + ".launcher " + lc::interesting(tr.launcher);
+        if (!tr.ok) { out += " @@ " + mode + " ERR"; continue; }
+        out += " @@ " + mode + " " + lc::interesting(tr.device);
+        if (m >= 2) out += " @@ " + mode + ".launcher " + lc::interesting(tr.launcher);
         if (dumpMode) {
           dump += " " + mode + "=" + hp::hex(tr.device);
           if (m >= 2) dump += " " + mode + ".launcher=" + hp::hex(tr.launcher);
